@@ -1,0 +1,17 @@
+//go:build verif
+
+package quicswarm
+
+import (
+	"io"
+
+	"go.brendoncarroll.net/p2p"
+)
+
+// VerifWriteFrame is writeFrame, for the verification harness (verif build tag only).
+func VerifWriteFrame(w io.Writer, data p2p.IOVec) error { return writeFrame(w, data) }
+
+// VerifReadFrame is readFrame, for the verification harness (verif build tag only).
+func VerifReadFrame(src io.Reader, dst []byte, maxLen int) (int, error) {
+	return readFrame(src, dst, maxLen)
+}
